@@ -46,3 +46,32 @@ _old_register = register
 def register(X, EXTRA):
     _old_register(X, EXTRA)
     EXTRA.append(lambda F: g2(F, X))
+
+
+def g3(F, X):
+    es = X.strip_comments(X.read(X.FP + "/stats/stats_collector/error_stats.rs"))
+    body = X.fn_body(es, "sort_error_msgs_by_mem_pos")
+    stable = None
+    if body:
+        if re.search(r"\.\s*sort_unstable(_by|_by_key)?\s*\(", body):
+            stable = False
+        elif re.search(r"\.\s*sort(_by|_by_key|_by_cached_key)?\s*\(", body):
+            stable = True
+    F.add("error_sort_is_stable", "bool", stable, True,
+          "error_stats.rs sort_error_msgs_by_mem_pos: is the sort by leading offset a stable sort")
+    fin = X.fn_body(es, "finalize_stats")
+    muted = None
+    if fin and "sort_error_msgs_by_mem_pos" in fin:
+        # is the call guarded by `if !mute_errors { ... }`
+        m = re.search(r"if\s*!\s*mute_errors\s*\{([^}]*)\}", fin)
+        muted = not (m is not None and "sort_error_msgs_by_mem_pos" in m.group(1))
+    F.add("error_sort_when_muted", "bool", muted, True,
+          "error_stats.rs finalize_stats: is the error list sorted also when errors are muted")
+
+
+_old_register2 = register
+
+
+def register(X, EXTRA):
+    _old_register2(X, EXTRA)
+    EXTRA.append(lambda F: g3(F, X))
